@@ -165,7 +165,7 @@ def run_case(case):
         sc.setup_agents()
         C.setup_repo(sc, 3, 10)
         for k in range(rng.choice([2, 3])):
-            op = rng.choice(["commit", "partial", "amend", "rebase", "cherry", "squash", "reset", "stash"])
+            op = rng.choice(["commit", "partial", "amend", "amend-leftover", "rebase", "cherry", "squash", "reset", "stash"])
             where = "op %d %s" % (k, op)
             sc.do_edit(author=rng.choice(sc.sessions))
             if op == "commit":
@@ -176,6 +176,18 @@ def run_case(case):
                 sc.commit_all("to-amend")
                 sc.do_edit(author=rng.choice(sc.sessions), kinds=["ins", "rep"])
                 sc.op_amend()
+            elif op == "amend-leftover":
+                # one session edits two files, only one is committed (the rest stays pending with its raw prompt record),
+                # then the left-over is folded in by --amend without any further agent activity
+                who = rng.choice(sc.sessions)
+                others = [x for x in sc.files if x != sc.log[-1][1]] or sc.files
+                sc.do_edit(author=who, f=rng.choice(others))
+                f_first = sc.log[-2][1]
+                sc.g("add", "--", f_first); sc.g("commit", "-q", "-m", "only one file")
+                if rng.random() < 0.5 and sc.profile.get("amend_human_edit", True):
+                    sc.do_edit(author="human", kinds=["ins"])
+                sc.g("add", "-A"); sc.g("commit", "-q", "--amend", "-m", "amended with the rest")
+                sc.ops.append("amend:leftover")
             elif op == "reset":
                 sc.commit_all("to-undo")
                 sc.op_reset(mode=rng.choice(["--soft", "--mixed"]))
